@@ -3,6 +3,8 @@ use crate::ctx::{Ctx, RunCfg};
 pub mod c01;
 #[cfg(feature = "full")]
 pub mod c02;
+#[cfg(feature = "full")]
+pub mod c03;
 pub mod c04;
 #[cfg(feature = "full")]
 pub mod c05;
@@ -61,6 +63,15 @@ pub fn all() -> Vec<Spec> {
             run: c02::run,
             level: "exploration",
             rule: "a script (initial metadata, k messages, OK or Status(code 1..16, Unicode message, details, metadata), possibly failing up front, bidi read/write interleaving) drives the real generated server behind the real generated client for each of the 4 call shapes; loopback monitor: in-process transport whose request and response bodies are re-chunked (pieces of 1..max_piece bytes, merges across frames, injected Pending) - h2 monitor: real Endpoint/Server over a fragmenting in-memory pipe with tiny HTTP/2 windows on a paused clock. Oracle: reference model of the four shapes (judge_call) + handler-side log of received messages/metadata (judge_request). Fingerprint = transport|shape|k class|outcome code|up-front|#request msgs class|metadata class|piece size. Non-trivial = error outcome or >=2 messages in either direction.",
+            exhaustive: false,
+            assumptions: COMMON_ASSUMPTIONS,
+        },
+        #[cfg(feature = "full")]
+        Spec {
+            id: "C03",
+            run: c03::run,
+            level: "exploration",
+            rule: "calls over the 4 shapes through the real generated client and server with each side's send-compression in {none, gzip, deflate, zstd}, outcomes in {OK, handler error (possibly up front), source error mid-stream, encode failure (a message over the server's encoding limit at any position)}; taps record the request head/body/trailers and the response head/body/trailers exactly as tonic's bodies produced them, and both bodies are polled 3 times beyond their end. Judge (in-process reference parser; and again offline by oracle_py/wirecheck.py over the JSONL wire log with Python zlib/gzip and the zstd CLI): POST, HTTP/2, /verif.v1.Verif/<Method>, content-type application/grpc, te: trailers; 200 + application/grpc; bodies are concatenations of frames with flag 0/1 and big-endian length, flag-1 payloads decompress with the announced grpc-encoding, payloads are the canonical protobuf serialization of the expected messages; exactly one grpc-status (headers of a body-less response or one trailers block, nothing after); request bodies carry no trailers. Fingerprint = shape|outcome|request encoding|response encoding|#request msgs class|#response msgs class. Non-trivial = non-OK outcome or any compression.",
             exhaustive: false,
             assumptions: COMMON_ASSUMPTIONS,
         },
